@@ -75,6 +75,18 @@ fn lua_string(s: &str) -> String {
     out
 }
 
+/// Lua has no literal for the infinities (a float literal out of range, `1e999`)
+/// or NaN; the spelling Rust prints (`inf`, `NaN`) would read a global variable.
+fn lua_float(f: f64) -> String {
+    if f.is_nan() {
+        "(0/0)".to_string()
+    } else if f.is_infinite() {
+        (if f > 0.0 { "math.huge" } else { "(-math.huge)" }).to_string()
+    } else {
+        format!("{:?}", f)
+    }
+}
+
 struct Generator<'a, 'b> {
     usage_count: &'a HashMap<Var, usize>,
     out: &'b mut dyn Write,
@@ -139,7 +151,7 @@ impl<'a, 'b> Generator<'a, 'b> {
                 IR::Neg(t, a) => ii!(self, t, "(-{})", a),
 
                 IR::Str(t, s) => iis!(self, t, "\"{}\"", lua_string(s)),
-                IR::Float(t, f) => iis!(self, t, "{:?}", f),
+                IR::Float(t, f) => iis!(self, t, "{}", lua_float(*f)),
 
                 IR::Equals(t, a, b) => ii!(self, t, "({} == {})", a, b),
                 IR::LessEqual(t, a, b) => ii!(self, t, "({} <= {})", a, b),
